@@ -506,3 +506,158 @@ def solve_and_simulate_contract(k, inst):
         skw, ikw = getattr(sm, "keywords", {}), kw
         k.ensures("solver-and-simulation-share-indexers-and-choice-grids", skw.get("state_indexers") is ikw.get("state_indexers") and skw.get("continuous_choice_grids") is ikw.get("continuous_choice_grids"))
         k.ensures("one-utility-and-feasibility-function-per-period-feeds-both", sorted(made) == list(range(T)) and len(skw.get("compute_ccv_functions", [])) == T and len(ikw.get("compute_ccv_policy_functions", [])) == T)
+
+
+# ----------------------------------------------------------------------------- C09: purity / frame
+@contract("lcm.entry_point.get_lcm_function", cid="C09.frame", family=lambda tier: [SimInst(s) for s in skeletons(tier)], props=("C09",))
+def frame_contract(k, inst):
+    """(statement of C09) building the solve and simulate functions and calling them -- repeatedly, with
+    different params -- never stores into anything that existed before the call: the user's model (its function,
+    state and choice mappings and the functions themselves), the params passed in, the initial states, module-level
+    state of the library, mutable default arguments, and (for the generated functions) the per-period objects they
+    were built from; the user's model and params are unchanged afterwards."""
+    skel = inst.skel
+    if k.mode == "native":
+        return _frame_native(k, inst)
+    from pyvc.ctx import cur
+    from pyvc.frame import Frame
+
+    restore = install_overrides(k, k.world)
+    fr = Frame()
+    try:
+        b = build(k, skel)
+        m = b.model
+        before = {"functions": dict(m.functions), "states": dict(m.states), "choices": dict(m.choices)}
+        fr.protect(m, "model")
+        for f in m.functions.values():
+            fr.protected[id(f)] = (f, "user function")
+        # module-level containers and mutable defaults of the library
+        for mod in list(k.world.modules.values()):
+            for nm, v in list(mod._env.vars.items()):
+                if isinstance(v, (dict, list, set)):
+                    fr.protect(v, f"{mod.name}.{nm}", depth=1)
+                from pyvc.exec import Closure
+
+                sig = v._c if isinstance(v, Closure) else None
+                if sig is not None:
+                    for d in list(sig.defaults) + [x for x in sig.kwdefaults if isinstance(x, (dict, list, set))]:
+                        if isinstance(d, (dict, list, set)):
+                            fr.protect(d, f"default argument of {mod.name}.{nm}", depth=1)
+        cur().memo["frame"] = fr
+        glf = k.fn("lcm.entry_point.get_lcm_function")
+        got = k.call_fn(glf, model=m, targets="solve", jit=False)
+        if isinstance(got, Raised):
+            k.fail("functions-created", repr(got))
+            return
+        solve_model, template = got
+        P1 = symbolic_params(k, template, prefix="p1")
+        P2 = symbolic_params(k, template, prefix="p2")
+        snap = lambda P: {kk: (dict(v) if isinstance(v, dict) else v) for kk, v in P.items()}
+        s1, s2 = snap(P1), snap(P2)
+        fr.protect(P1, "params")
+        fr.protect(P2, "params (second call)")
+        fr.protect(template, "template of an earlier get_lcm_function call", depth=2)
+        for nm, lst in solve_model.keywords.items():
+            fr.protect(lst, f"per-period list {nm}", depth=2)
+        o1 = k.call_fn(solve_model, P1)
+        o2 = k.call_fn(solve_model, P2)
+        o3 = k.call_fn(solve_model, P1)
+        k.ensures("repeated-and-interleaved-solve-calls-run", not any(isinstance(o, Raised) for o in (o1, o2, o3)))
+        got2 = k.call_fn(glf, model=m, targets="solve", jit=False)
+        k.ensures("building-again-gives-a-fresh-template", (not isinstance(got2, Raised)) and got2[1] is not template and set(got2[1]) == set(template))
+        unchanged = lambda P, s: set(P) == set(s) and all((P[kk] is s[kk]) if not isinstance(s[kk], dict) else (set(P[kk]) == set(s[kk]) and all(P[kk][j] is s[kk][j] for j in s[kk])) for kk in s)
+        k.ensures("params-unchanged", unchanged(P1, s1) and unchanged(P2, s2))
+        k.ensures("model-unchanged", dict(m.functions) == before["functions"] and all(m.functions[x] is before["functions"][x] for x in before["functions"]) and dict(m.states) == before["states"] and dict(m.choices) == before["choices"])
+    finally:
+        fr.active = False
+        restore()
+    k.ensures("nothing-that-existed-before-a-call-is-stored-into", not fr.violations)
+    if fr.violations:
+        from pyvc.ctx import cur as _c
+
+        _c().notes.append("frame violations: " + "; ".join(fr.violations[:5]))
+
+
+def _frame_native(k, inst):
+    import copy
+
+    import numpy as np
+
+    skel = inst.skel
+    b = build(k, skel)
+    m = b.model
+    before = {"functions": dict(m.functions), "states": dict(m.states), "choices": dict(m.choices)}
+    glf = k.fn("lcm.entry_point.get_lcm_function")
+    solve_model, template = glf(model=m, targets="solve", jit=False)
+    P1 = k.native.to_native(symbolic_params(k, template, prefix="p1"))
+    P2 = k.native.to_native(symbolic_params(k, template, prefix="p2"))
+    c1 = copy.deepcopy(jax_to_np(P1))
+    a = solve_model(P1)
+    solve_model(P2)
+    c = solve_model(P1)
+    k.ensures("repeated-and-interleaved-calls-give-the-result-of-the-current-arguments", all(np.array_equal(np.asarray(x), np.asarray(y)) for x, y in zip(a, c)))
+    k.ensures("params-unchanged", same_tree(jax_to_np(P1), c1))
+    k.ensures("model-unchanged", dict(m.functions) == before["functions"] and dict(m.states) == before["states"] and dict(m.choices) == before["choices"])
+    solve2, _ = glf(model=m, targets="solve", jit=False)
+    d = solve2(P1)
+    k.ensures("building-the-function-again-gives-the-same-results", all(np.array_equal(np.asarray(x), np.asarray(y)) for x, y in zip(a, d)))
+
+
+def jax_to_np(t):
+    import numpy as np
+
+    if isinstance(t, dict):
+        return {kk: jax_to_np(v) for kk, v in t.items()}
+    return np.asarray(t)
+
+
+def same_tree(a, b):
+    import numpy as np
+
+    if isinstance(a, dict):
+        return isinstance(b, dict) and set(a) == set(b) and all(same_tree(a[x], b[x]) for x in a)
+    return np.array_equal(a, b, equal_nan=True)
+
+
+# ----------------------------------------------------------------------------- C08: independence of agents (bounded part)
+@contract("lcm.simulate.simulate", cid="C08.permutation-subset-duplication", family=lambda tier: [SimInst(s) for s in skeletons("quick") if not s.stochastic_states()], props=("C08",))
+def agents_independent_bounded_contract(k, inst):
+    """[bounded stand-in] in a model without stochastic transitions: permuting the agents permutes the rows,
+    simulating a subset gives the same paths, duplicating an agent duplicates its path, the key order of
+    initial_states is irrelevant.  (The deductive part of C08 is that every clause of C02.decisions,
+    C03.law-of-motion and C13.panel about row (t, i) mentions agent i's own row only, for all batches.)"""
+    names = {"permuting-agents-permutes-rows", "subset-gives-the-same-paths", "duplicating-an-agent-duplicates-its-path", "key-order-of-initial-states-is-irrelevant"}
+    if k.mode != "native":
+        from pyvc.ctx import cur
+
+        cur().memo.setdefault("bounded_clauses", set()).update(names)
+        return
+    import numpy as np
+
+    S = run_simulation(k, inst)
+    if isinstance(S, Raised):
+        k.fail("simulation-runs", repr(S))
+        return
+    n = int(S.n)
+    T = S.skel.n_periods
+    kw = dict(vf_arr_list=list(S.vf), seed=int(S.seed))
+    cols = [c for c in S.frame.columns]
+    base = {c: np.asarray(S.frame[c].values, dtype=float).reshape(T, n) for c in cols}
+
+    def run(init):
+        f = k.call_fn(S.sim, S.P, initial_states=init, **kw)
+        m = len(next(iter(init.values())))
+        return {c: np.asarray(f[c].values, dtype=float).reshape(T, m) for c in cols}
+
+    perm = list(reversed(range(n)))
+    init_np = {s: np.asarray(v) for s, v in S.init.items()}
+    rp = run({s: v[perm] for s, v in init_np.items()})
+    k.ensures("permuting-agents-permutes-rows", all(np.allclose(rp[c], base[c][:, perm], equal_nan=True) for c in cols))
+    sub = [0]
+    rs = run({s: v[sub] for s, v in init_np.items()})
+    k.ensures("subset-gives-the-same-paths", all(np.allclose(rs[c], base[c][:, sub], equal_nan=True) for c in cols))
+    dup = list(range(n)) + [0]
+    rd = run({s: v[dup] for s, v in init_np.items()})
+    k.ensures("duplicating-an-agent-duplicates-its-path", all(np.allclose(rd[c], base[c][:, dup], equal_nan=True) for c in cols))
+    rk = run(dict(reversed(list(init_np.items()))))
+    k.ensures("key-order-of-initial-states-is-irrelevant", all(np.allclose(rk[c], base[c], equal_nan=True) for c in cols))
